@@ -3,4 +3,5 @@ package engines
 
 import (
 	_ "verif/sim/engines/dsssim"
+	_ "verif/sim/engines/vsssim"
 )
